@@ -213,7 +213,9 @@ pub fn h_nested_in<M: VMode>() {
             // the outer pending error is never lost: it is at least as far as every outer offer
             let outer = Offers::of(&s0, &[&lb]);
             if let Some(m) = outer.max_pos() {
-                vassert!(s.alt.map(|x| x.0 >= m).unwrap_or(false), "C06/nested_in.outer-pending-error-is-preserved-by-priority");
+                // C16: "the outer grammar backtracks over a failed nested parse like over any other failure" - the
+                // failure pending in the outer parse is not lost to the nested one
+                vassert2!(s.alt.map(|x| x.0 >= m).unwrap_or(false), "C06/nested_in.outer-pending-error-is-preserved-by-priority", "C16/nested_in.outer-pending-error-is-preserved-by-priority");
             }
             // an inner failure is reported at the outer position of the nested input
             if !complete {
